@@ -143,6 +143,17 @@ CHECKS = {
              "module text; a worker that dies, exhausts memory or does not answer is a violation for that input.",
         note="The predicate is totality only; the specification supplies the input space, not an expected result.",
         design="5/C05"),
+    "C08": dict(
+        technique="position records from the real code (syntax errors, diagnostics, interrupt spans) evaluated by TLC "
+                  "against the TLA+ predicates of TraceSpans (InFile, Ordered, Within(culprit), Renderable); culprit "
+                  "nodes from HmsSem; real Display calls executed",
+        text="Malformed inputs (token-level mutations / truncations of valid programs, lexical errors, multi-line "
+             "constructs, end of input, imported-module text) and runtime failures whose culprit node is fixed by "
+             "HmsSem produce ~10^4 position records per run; TLC evaluates InFile, Ordered, Within and Renderable on "
+             "every record and the real Error.Display / Diagnostic.Display call must have returned.",
+        note="Line lengths are counted in characters. Caught-error positions (line/column/filename of the error "
+             "object) are checked by the C01/C11 comparisons.",
+        design="5/C08"),
 }
 
 NOT_YET = {}
